@@ -90,3 +90,20 @@ W_CMPD(us, unsigned short)
 W_CMPD(ui, unsigned int)
 W_CMPD(sl, long)
 W_CMPD(ul, unsigned long)
+
+/* identity operands given as literals: `add 0`, `or 0`, `and ~0`, `xchg(p, 0)`, `cmpxchg(p, 0, 0)` are still read-modify-write
+ * operations (callers use uatomic_add_return(p, 0) as a fully ordered read) - a macro that special-cases a constant operand
+ * into a plain load / nothing loses the atomicity and the barrier */
+#define W_CONST(T, TY) \
+	TY w_add_return_k0__##T(TY *p) { return uatomic_add_return(p, 0); } \
+	TY w_sub_return_k0__##T(TY *p) { return uatomic_sub_return(p, 0); } \
+	TY w_add_return_k1__##T(TY *p) { return uatomic_add_return(p, 1); } \
+	TY w_sub_return_k1__##T(TY *p) { return uatomic_sub_return(p, 1); } \
+	TY w_xchg_k0__##T(TY *p) { return uatomic_xchg(p, 0); } \
+	TY w_cmpxchg_k0__##T(TY *p) { return uatomic_cmpxchg(p, 0, 0); } \
+	void w_add_k0__##T(TY *p) { uatomic_add(p, 0); } \
+	void w_sub_k0__##T(TY *p) { uatomic_sub(p, 0); } \
+	void w_or_k0__##T(TY *p) { uatomic_or(p, 0); } \
+	void w_and_k0__##T(TY *p) { uatomic_and(p, (TY) -1); }
+
+W_TYPES(W_CONST)
